@@ -505,7 +505,6 @@ func mismatches(got, want tensor.Tensor) (string, []int) {
 	return "", idx
 }
 
-
 // approxSame: shape and dtype exact; integer, bool and other non-float elements exact; float
 // elements equal, both NaN, or within rel*max(1,|a|,|b|) ("up to floating-point rounding").
 func approxSame(a, b tensor.Tensor, rel float64) string {
